@@ -5,7 +5,9 @@ Model: Model/Known.v (per type parse/serialise over bytes, vlr_factory over the 
 list codec of Model/Las.v. Correspondence: (a) record lists through VLRList.write_to/read_from (VLR and EVLR form):
 bytes written, records handed out (class, ids, description, parsed content, record_data_bytes()), and the second
 generation (what was read, written and read again); (b) the same lists attached to real LAS files written and read
-by laspy (LasData.write / laspy.read, LasWriter.write_evlrs / laspy.open), first and second generation;
+by laspy (LasData.write / laspy.read, LasWriter.write_evlrs / laspy.open) and carried through a history of generations
+(read, edit the lists -- remove, insert, clear, replace, reverse, move --, write through the header that was read, read
+again), against the file model (write_file / read_file: header fields that locate the records, record bytes, records);
 (c) the dispatch table; (d) serialisation of user-built classification lookups.
 Search: the property stated on the implementation alone, on the same runs plus a stream of valid non-ASCII UTF-8
 text payloads (outside the model's text assumption)."""
@@ -21,9 +23,14 @@ ASSUMPTIONS = [
     "ASCII text plus bytes that are invalid in every UTF-8 position (0xC0, 0xC1, 0xF8..0xFF) whose expected outcome is 'kept raw'; "
     "valid non-ASCII UTF-8 names/WKT are checked by the search oracle only (on the implementation, without the model)",
     "user ids and descriptions are printable ASCII without NUL, of every length up to the field width (the property's domain)",
-    "records owned by the file machinery are not placed in the VLR list of real files: LASF_Spec/4 (ExtraBytesVlr is regenerated "
-    "from the point format by LasHeader, and dropped with a warning when the point size has no extra bytes) and "
-    "'laszip encoded'/22204 (LasWriter pops the first LasZipVlr); both are exercised as EVLRs and through VLRList directly",
+    "records owned by the file machinery: a LASF_Spec/4 record is placed in the VLR list of a real file only together with "
+    "the extra dimensions it describes (descriptors of every type 0..30, arbitrary options / no_data / min / max / scale / "
+    "offset bytes, ASCII names and descriptions, any position in the list); an extra-bytes record that contradicts the point "
+    "size (dropped with a warning, or the file is refused) and 'laszip encoded'/22204 in the VLR list (LasWriter pops the "
+    "first LasZipVlr) are not generated in files; both are exercised as EVLRs and through VLRList directly",
+    "list edits between generations go through the list API of las.vlrs / las.evlrs (and las.evlrs = VLRList(...)); the "
+    "header.vlrs setter and add_extra_dim(s) / remove_extra_dim(s), which regenerate the extra-bytes record by design, are "
+    "not part of the histories",
     "user id 'copc' (CopcInfoVlr / CopcHierarchyVlr, 'Writing COPC is not supported') is outside the property and is not generated; "
     "the model marks these classes KUnmodelled",
     "the geokey count wraps modulo 2^16 only for payloads above 524295 bytes; these are checked by the search oracle only "
@@ -172,7 +179,7 @@ def known_record(rng, cls=None, kind=None):
         kind = "wf" if kind == "norm" else kind
         uid, rid, p = U_SPEC, 4, chunks_payload(rng, 192, kind)
     elif cls == "wave":
-        uid, rid, p = U_SPEC, rng.choice([100, 101, 227, 355]), wave_payload(rng, kind)
+        uid, rid, p = U_SPEC, rng.choice([100, 101, 354, 355, rng.randrange(100, 356), rng.randrange(100, 356)]), wave_payload(rng, kind)
     elif cls == "geokeys":
         uid, rid, p = U_PROJ, 34735, geokeys_payload(rng, kind)
     elif cls == "doubles":
@@ -187,6 +194,74 @@ def known_record(rng, cls=None, kind=None):
         kind = "wf"
         uid, rid, p = U_LASZIP, 22204, rbytes(rng, rng.choice([0, 1, 34, 52]))
     return (uid, rid, gen_desc(rng), p, f"{cls}/{kind}")
+
+
+RAW_TAGS = ("unknown", "nearmiss")
+
+
+def nearmiss_record(rng):
+    """a record that is ALMOST one laspy understands: a payload that parses for a known class, under that class's record
+    id, with a user id that differs from the official one by blanks (leading / trailing / padded to the field width),
+    letter case, one character more or less -- or the official user id with a neighbouring record id. It is a record
+    of its own: kept raw, identifiers and payload unchanged."""
+    while True:
+        uid, rid, desc, p, tag = known_record(rng, kind=rng.choice(["wf", "wf", "norm"]))
+        if rng.random() < 0.8:
+            how = rng.choice(["trail", "trail", "lead", "pad", "both", "lower", "upper", "cut", "more", "swapcase1", "inner"])
+            if how == "trail":
+                u = uid + b" " * rng.randrange(1, 17 - len(uid))
+            elif how == "lead":
+                u = b" " * rng.randrange(1, 17 - len(uid)) + uid
+            elif how == "pad":
+                u = uid.ljust(16, b" ")
+            elif how == "both":
+                u = (b" " + uid + b" ")[:16]
+            elif how == "lower":
+                u = uid.lower()
+            elif how == "upper":
+                u = uid.upper()
+            elif how == "cut":
+                u = uid[:-1] if rng.random() < 0.5 else uid[1:]
+            elif how == "more":
+                u = (uid + bytes([rng.choice(PRINTABLE)]))[:16]
+            elif how == "swapcase1":
+                i = rng.randrange(len(uid))
+                u = uid[:i] + uid[i:i + 1].swapcase() + uid[i + 1:]
+            else:
+                u = uid.replace(b"_", b" ") if b"_" in uid else uid.replace(b" ", b"_")
+            r = rid
+        else:
+            u = uid
+            r = rid + rng.choice([-1, 1]) if not 100 <= rid <= 355 else rng.choice([99, 356])
+            if not 0 <= r < 65536:
+                continue
+        if u == b"copc" or is_known_id(u, r) or len(u) > 16:
+            continue
+        return (u, r, desc, p, "nearmiss")
+
+
+EB_BASE_SIZES = [1, 1, 2, 2, 4, 4, 8, 8, 4, 8]
+NAME_CHARS = b"abcdefghijklmnopqrstuvwxyz_0123456789"
+
+
+def eb_payload(rng):
+    """an extra-bytes record (192-byte descriptors) as other software writes it: every data type 0..30, arbitrary option
+    bits and no_data / min / max / scale / offset bytes, names of every length up to the 32-byte field"""
+    import struct as _s
+    out = b""
+    for i in range(rng.choice([1, 1, 2, 3])):
+        t = rng.choice([0, rng.randrange(1, 11), rng.randrange(1, 31)])
+        options = rng.choice([1, 2, 4, 5, 7]) if t == 0 else rng.choice([0, 1, 6, 7, 8, 16, 24, 31, rng.randrange(32)])
+        ln = rng.choice([1, 4, 12, 31, 32])
+        name = (b"e%d_" % i + rtext(rng, 32, NAME_CHARS))[:ln] if ln > 3 else (b"qwv"[i:i + 1] + b"%d" % i)[:max(ln, 2)]
+        dlen = rng.choice([0, 1, 10, 31, 32])
+        scales = [rng.choice([0.01, 0.5, 1.0, 2.0, 1e-3, 123.456]) for _ in range(3)]
+        offsets = [rng.choice([0.0, -1.5, 1000.0, 1e6, 0.25]) for _ in range(3)]
+        out += (bytes([0, 0] if rng.random() < 0.7 else [rng.getrandbits(8), rng.getrandbits(8)]) + bytes([t, options])
+                + name.ljust(32, b"\0") + rbytes(rng, 4) + rbytes(rng, 72)
+                + _s.pack("<3d", *scales) + _s.pack("<3d", *offsets) + rtext(rng, dlen, PRINTABLE).ljust(32, b"\0"))
+    assert len(out) % 192 == 0
+    return out
 
 
 def is_known_id(uid, rid):
@@ -220,12 +295,46 @@ def gen_list(rng, n, file_vlr=False):
             rec = known_record(rng, bcls)
         elif rng.random() < 0.6:
             rec = known_record(rng)
+        elif rng.random() < 0.3:
+            rec = nearmiss_record(rng)
         else:
             rec = unknown_record(rng)
         if file_vlr and rec[0] in (U_SPEC, U_LASZIP) and rec[1] in (4, 22204):
             rec = unknown_record(rng)
         out.append(rec)
     return out
+
+
+VIAS = ["write", "write", "writer", "disk", "writer-noevlrs"]
+
+
+def gen_edit(rng, ver):
+    which = "e" if ver == "1.4" and rng.random() < 0.5 else "v"
+    op = rng.choice(["del", "del", "ins", "ins", "clear", "new", "rev", "move"])
+    if op == "del":
+        return ["del", which, rng.randrange(64)]
+    if op == "ins":
+        return ["ins", which, rng.randrange(64), gen_list(rng, 1, file_vlr=which == "v")[0]]
+    if op == "new":
+        return ["new", which, gen_list(rng, rng.choice([0, 0, 1, 3]), file_vlr=which == "v")]
+    if op == "move":
+        return ["move", which, rng.randrange(64), rng.randrange(64)]
+    return [op, which]
+
+
+def gen_steps(rng, ver):
+    """what happens to the file after it was first written: 1..3 more generations, each = the lists that were read
+    are edited (or not) and written through the header that was read"""
+    r = rng.random()
+    if r < 0.35:
+        return [{"via": rng.choice(VIAS[:4]), "edits": []}]
+    steps = []
+    for _ in range(rng.choice([1, 1, 2, 3])):
+        edits = [gen_edit(rng, ver) for _ in range(rng.choice([0, 1, 1, 2, 3]))]
+        if ver == "1.4" and rng.random() < 0.25:
+            edits.append(rng.choice([["clear", "e"], ["new", "e", []], ["clear", "e"]]))   # every EVLR removed
+        steps.append({"via": rng.choice(VIAS), "edits": edits})
+    return steps
 
 
 def gen_cases(ctx):
@@ -239,7 +348,20 @@ def gen_cases(ctx):
         while b[3] == a[3] or not a[3] or not b[3]:
             a, b = known_record(rng, cls, "wf"), known_record(rng, cls, "wf")
         cases.append({"mode": "list", "ext": False, "recs": [a, b, a]})
-        cases.append({"mode": "file", "version": "1.4", "fmt": 6, "points": 1, "via": "write", "recs": [unknown_record(rng, 3)], "erecs": [b, a, b]})
+        cases.append({"mode": "file", "version": "1.4", "fmt": 6, "points": 1, "via": "write", "recs": [unknown_record(rng, 3)], "erecs": [b, a, b],
+                      "steps": [{"via": "write", "edits": []}]})
+    # a file whose EVLRs are all removed (each way of removing them x each way of writing), then written once more;
+    # a file with extra dimensions whose extra-bytes record is first / in the middle / last, through two more generations
+    for via in ("write", "disk", "writer", "writer-noevlrs"):
+        for ed in (["clear", "e"], ["new", "e", []], ["del", "e", 0]):
+            cases.append({"mode": "file", "version": "1.4", "fmt": rng.choice([6, 7]), "points": rng.choice([0, 3]), "via": rng.choice(["write", "writer"]),
+                          "recs": [unknown_record(rng, 3)], "erecs": [unknown_record(rng, rng.choice([0, 5, 300]))],
+                          "steps": [{"via": via, "edits": [ed]}, {"via": "write", "edits": []}]})
+    for pos in (0, 1, 2):
+        vl = [unknown_record(rng, 2), known_record(rng, "wkt", "wf")]
+        vl.insert(pos, (U_SPEC, 4, gen_desc(rng), eb_payload(rng), "extra/wf"))
+        cases.append({"mode": "file", "version": rng.choice(["1.2", "1.4"]), "fmt": 3, "points": 2, "via": "write", "recs": vl, "erecs": None,
+                      "steps": [{"via": "write", "edits": []}, {"via": "writer", "edits": []}]})
     # every id / description length, full-width punctuation
     for ln in range(0, 17):
         cases.append({"mode": "list", "ext": ln % 2 == 0, "recs": [(rtext(rng, ln, PRINTABLE), rng.randrange(65536), rtext(rng, 2 * ln, PUNCT), rbytes(rng, ln), "unknown")]})
@@ -256,8 +378,12 @@ def gen_cases(ctx):
             vl.insert(rng.randrange(len(vl) + 1), unknown_record(rng, rng.choice([65535, 65536])))
         if evl is not None and rng.random() < 0.06:
             evl.insert(rng.randrange(len(evl) + 1), unknown_record(rng, rng.choice([65535, 65536, 70000])))
+        if rng.random() < 0.3:
+            # the file has extra dimensions: their extra-bytes record is one of the VLRs, anywhere in the list
+            vl.insert(rng.randrange(len(vl) + 1), (U_SPEC, 4, gen_desc(rng), eb_payload(rng), "extra/wf"))
         cases.append({"mode": "file", "version": ver, "fmt": fmt, "points": rng.choice([0, 1, 7]),
-                      "via": rng.choice(["write", "write", "writer", "disk"]), "recs": vl, "erecs": evl})
+                      "via": rng.choice(["write", "write", "writer", "disk"]), "recs": vl, "erecs": evl,
+                      "steps": gen_steps(rng, ver)})
     # (c) payload size boundaries (last: they are the expensive ones)
     for ext in (False, True):
         for size in (65535, 65536):
@@ -381,19 +507,22 @@ def run_list(case):
 _TMP = "/var/tmp/c08_files_%d" % os.getpid()
 
 
-def write_file(case, las, evl):
-    """one of three public ways of producing the file; returns its bytes"""
+def mk_vlr(rec):
     import laspy
-    via = case["via"]
-    if via == "write":
+    u, r, d, p = rec[:4]
+    return laspy.VLR(u.decode("ascii"), r, d.decode("ascii"), p)
+
+
+def write_file(via, las, evl, call_write_evlrs=True):
+    """one of the public ways of producing the file; returns its bytes"""
+    import laspy
+    if via in ("write", "disk"):
         if evl is not None:
             las.evlrs = evl
-        buf = io.BytesIO()
-        las.write(buf)
-        return buf.getvalue()
-    if via == "disk":
-        if evl is not None:
-            las.evlrs = evl
+        if via == "write":
+            buf = io.BytesIO()
+            las.write(buf)
+            return buf.getvalue()
         os.makedirs(_TMP, exist_ok=True)
         path = os.path.join(_TMP, "f.las")
         try:
@@ -406,53 +535,175 @@ def write_file(case, las, evl):
     buf = io.BytesIO()
     with laspy.open(buf, mode="w", header=las.header, closefd=False) as w:
         w.write_points(las.points)
-        if evl is not None:
+        if evl is not None and via != "writer-noevlrs":
             w.write_evlrs(evl)
     return buf.getvalue()
 
 
-def read_file(case, data):
+def read_file(via, data):
     import laspy
-    if case["via"] == "writer":
+    if via.startswith("writer"):
         with laspy.open(io.BytesIO(data)) as rd:
             return rd.read()
     return laspy.read(io.BytesIO(data))
 
 
+def steps_of(case):
+    return case["steps"] if "steps" in case else [{"via": case["via"], "edits": []}]
+
+
+def new_item(rec, sids):
+    sids[0] += 1
+    return {"rec": rec, "k": False, "sid": sids[0]}
+
+
+def apply_edit(v, e, ed, sids):
+    """an edit on the expected lists (lists of items); the same on the implementation: apply_edit_impl"""
+    op, which = ed[0], ed[1]
+    if which == "e" and e is None:
+        return v, e
+    l = list(v if which == "v" else e)
+    if op == "del":
+        if l:
+            l.pop(ed[2] % len(l))
+    elif op == "ins":
+        l.insert(ed[2] % (len(l) + 1), new_item(tuple(ed[3]), sids))
+    elif op == "clear":
+        l = []
+    elif op == "new":
+        l = [new_item(tuple(r), sids) for r in ed[2]]
+    elif op == "rev":
+        l.reverse()
+    elif op == "move":
+        if l:
+            x = l.pop(ed[2] % len(l))
+            l.insert(ed[3] % (len(l) + 1), x)
+    return (l, e) if which == "v" else (v, l)
+
+
+def apply_edit_impl(las, ed):
+    from laspy.vlrs.vlrlist import VLRList
+    op, which = ed[0], ed[1]
+    l = las.vlrs if which == "v" else las.evlrs
+    if l is None:
+        return
+    if op == "del":
+        if len(l):
+            l.pop(ed[2] % len(l))
+    elif op == "ins":
+        l.insert(ed[2] % (len(l) + 1), mk_vlr(ed[3]))
+    elif op == "clear":
+        l.clear()
+    elif op == "new":
+        if which == "e":
+            las.evlrs = VLRList([mk_vlr(r) for r in ed[2]])
+        else:
+            l[:] = [mk_vlr(r) for r in ed[2]]
+    elif op == "rev":
+        l.reverse()
+    elif op == "move":
+        if len(l):
+            x = l.pop(ed[2] % len(l))
+            l.insert(ed[3] % (len(l) + 1), x)
+
+
+def history(case):
+    """the record lists every generation of the file is expected to hold: [(vlr items, evlr items | None, via, handed)];
+    handed = whether an EVLR list is handed to the writer at all. item = {rec, k: went through the reader, sid}"""
+    sids = [0]
+    v = [new_item(r, sids) for r in case["recs"]]
+    e = None if case["erecs"] is None else [new_item(r, sids) for r in case["erecs"]]
+    gens = [(v, e if e is not None or case["version"] != "1.4" else [], case["via"], e is not None)]
+    for st in steps_of(case):
+        v = [dict(x, k=True) for x in v]
+        # a 1.4 file always reads back with an EVLR list (empty when it has none)
+        e = [dict(x, k=True) for x in e] if e is not None else ([] if case["version"] == "1.4" else None)
+        for ed in st["edits"]:
+            v, e = apply_edit(v, e, ed, sids)
+        handed = e is not None and st["via"] != "writer-noevlrs"
+        if e is not None and not handed:
+            e = []
+        gens.append((v, e, st["via"], handed))
+    return gens
+
+
+def raw_locator(data):
+    """the header fields that locate the records, from the bytes of the file"""
+    minor = data[25]
+    hs = int.from_bytes(data[94:96], "little")
+    loc = [int.from_bytes(data[100:104], "little"), int.from_bytes(data[96:100], "little"), 0, 0]
+    if minor >= 4:
+        loc[3] = int.from_bytes(data[235:243], "little")
+        loc[2] = int.from_bytes(data[243:247], "little")
+    return hs, loc
+
+
+def read_gen(via, data):
+    g = {"file": data}
+    g["hs"], g["loc"] = raw_locator(data)
+    try:
+        r = read_file(via, data)
+    except Exception as ex:  # noqa
+        g["rerr"] = f"{common.exc_kind(ex)}: {type(ex).__name__}: {ex}"[:300]
+        return g, None
+    g["vl"] = [snap(v) for v in r.vlrs]
+    g["el"] = None if r.evlrs is None else [snap(v) for v in r.evlrs]
+    g["npts"] = len(r.points) * int(r.header.point_format.size)
+    g["hdr"] = (int(r.header.offset_to_point_data), int(r.header.number_of_evlrs), int(r.header.start_of_first_evlr))
+    return g, r
+
+
 def run_file(case):
+    """-> {"gens": [generation]}; generation = {"werr"} | {"file", "hs", "loc", "rerr" | ("vl", "el", "npts", "hdr")};
+    the run ends with the first write that is refused, the first file that cannot be read, or a "skipped" note"""
     import laspy
     import numpy as np
-    las = laspy.create(point_format=case["fmt"], file_version=case["version"])
+    from laspy.vlrs.known import ExtraBytesVlr
+    from laspy.vlrs.vlrlist import VLRList
+    header = laspy.LasHeader(point_format=case["fmt"], version=case["version"])
+    eb = [r for r in case["recs"] if r[4].startswith("extra/")]
+    if eb:
+        # the extra dimensions the record describes; the record laspy generates for them is replaced by the one of the case
+        v = ExtraBytesVlr()
+        v.parse_record_data(eb[0][3])
+        header.add_extra_dims(v.type_of_extra_dims())
+    las = laspy.LasData(header)
     n = case["points"]
     las.x = np.arange(n, dtype=np.float64)
     las.y = np.arange(n, dtype=np.float64) * 2
     las.z = np.zeros(n)
+    if eb:
+        las.vlrs.extract("ExtraBytesVlr")
     las.vlrs.extend(mk_vlrs(case["recs"]))
     evl = mk_vlrs(case["erecs"]) if case["erecs"] is not None else None
-    res = {}
+    res = {"gens": []}
     try:
-        data = write_file(case, las, evl)
+        data = write_file(case["via"], las, evl)
     except Exception as ex:  # noqa
-        res["werr"] = common.exc_kind(ex)
+        res["gens"].append({"werr": common.exc_kind(ex)})
         return res
-    res["file"] = data
-    r = read_file(case, data)
-    res["gen1"] = [snap(v) for v in r.vlrs]
-    res["egen1"] = None if r.evlrs is None else [snap(v) for v in r.evlrs]
-    res["hdr"] = (int(r.header.version.minor), int(r.header.offset_to_point_data), int(r.header.number_of_evlrs), int(r.header.start_of_first_evlr))
-    if outgrew(list(case["recs"]) + list(case["erecs"] or []), res["gen1"] + (res["egen1"] or [])):
-        res["w2err"] = "skipped: serialisations outgrew the payloads"
-        return res
-    try:
-        case2 = dict(case)
-        data2 = write_file(case2, r, None if case["via"] != "writer" else r.evlrs)
-    except Exception as ex:  # noqa
-        res["w2err"] = common.exc_kind(ex)
-        return res
-    res["file2"] = data2
-    r2 = read_file(case, data2)
-    res["gen2"] = [snap(v) for v in r2.vlrs]
-    res["egen2"] = None if r2.evlrs is None else [snap(v) for v in r2.evlrs]
+    g, r = read_gen(case["via"], data)
+    res["gens"].append(g)
+    allrecs = list(case["recs"]) + list(case["erecs"] or [])
+    for st in steps_of(case):
+        if r is None:
+            break
+        if outgrew(allrecs, g["vl"] + (g["el"] or [])):
+            res["skipped"] = "serialisations outgrew the payloads"
+            break
+        for ed in st["edits"]:
+            apply_edit_impl(r, ed)
+            if ed[0] == "ins":
+                allrecs.append(ed[3])
+            elif ed[0] == "new":
+                allrecs += list(ed[2])
+        try:
+            data = write_file(st["via"], r, None if st["via"] in ("write", "disk") else r.evlrs)
+        except Exception as ex:  # noqa
+            res["gens"].append({"werr": common.exc_kind(ex)})
+            break
+        g, r = read_gen(st["via"], data)
+        res["gens"].append(g)
     return res
 
 
@@ -496,14 +747,21 @@ def recs_tok(recs):
     return "|".join(":".join([hx(u), str(r), hx(d), hx(p)]) for u, r, d, p, _ in recs) if recs else "-"
 
 
-def case_json(case):
-    def rj(recs):
-        return None if recs is None else [[hx(u), r, hx(d), hx(p) if len(p) <= 4096 else f"random:{len(p)}:{hx(p[:8])}", t] for u, r, d, p, t in recs]
-    out = {k: v for k, v in case.items() if k not in ("recs", "erecs")}
-    out["recs"] = rj(case["recs"])
+def map_recs(case, f):
+    """the case with f applied to every record list in it (recs, erecs, records carried by edits)"""
+    out = {k: v for k, v in case.items() if k not in ("recs", "erecs", "steps")}
+    out["recs"] = f(case["recs"])
     if "erecs" in case:
-        out["erecs"] = rj(case["erecs"])
+        out["erecs"] = None if case["erecs"] is None else f(case["erecs"])
+    if "steps" in case:
+        out["steps"] = [{"via": st["via"], "edits": [
+            [ed[0], ed[1], ed[2], f([ed[3]])[0]] if ed[0] == "ins" else [ed[0], ed[1], f(ed[2])] if ed[0] == "new" else list(ed)
+            for ed in st["edits"]]} for st in case["steps"]]
     return out
+
+
+def case_json(case):
+    return map_recs(case, lambda recs: [[hx(u), r, hx(d), hx(p) if len(p) <= 4096 else f"random:{len(p)}:{hx(p[:8])}", t] for u, r, d, p, t in recs])
 
 
 def nontrivial(recs):
@@ -548,88 +806,125 @@ def compare_list(where, recs, ext, mo, werr, gen1, w2err, gen2, b1, b2, case, di
         add("second generation differs from the first", mrecs[:300], i2[:300])
 
 
+def item_tok(x):
+    u, r, d, p = x["rec"][:4]
+    return ("k" if x["k"] else "") + ":".join([hx(u), str(r), hx(d), hx(p)])
+
+
+def items_tok(items):
+    return "|".join(item_tok(x) for x in items) if items else "-"
+
+
+HEADER_SIZES = {"1.1": 227, "1.2": 227, "1.3": 235, "1.4": 375}
+
+
+def correspond_file(case, res, dis):
+    """every generation against the file model: write_file_known (the lists as they are now, through a header whose
+    EVLR fields are those of the previous generation) then read_file"""
+    def add(kind, model, impl):
+        dis.append({"kind": f"file: {kind}", "input": case_json(case), "model": str(model)[:300], "impl": str(impl)[:300]})
+    hs, v14 = HEADER_SIZES[case["version"]], case["version"] == "1.4"
+    hist = history(case)
+    cmds, stale = [], (0, 0)
+    for gi, ((v, e, via, handed), g) in enumerate(zip(hist, res["gens"])):
+        # the points are not under test: as many bytes as the implementation wrote (0 when it wrote nothing)
+        npts = g.get("npts", 0)
+        # the EVLR list handed to the writer is the one of the history BEFORE "not handed" emptied it; its content is
+        # irrelevant then (none), so the expected list is used
+        cmds.append(f"file {hs} {'T' if v14 else 'F'} {stale[0]} {stale[1]} {items_tok(v)} {npts} {items_tok(e) if handed else 'none'}")
+        if "loc" in g:
+            stale = (g["loc"][2], g["loc"][3])
+    outs = common.run_model(cmds, name="c08")
+    for gi, ((v, e, via, handed), g, mo) in enumerate(zip(hist, res["gens"], outs)):
+        at = f"generation {gi} ({via})"
+        if not mo.startswith("ok "):
+            merr = mo.split()[1] if mo.startswith("err ") else mo
+            if g.get("werr") != merr:
+                add(f"write refused by the model only ({at})" if "werr" not in g else f"different write error ({at})", mo, g.get("werr"))
+            return
+        if "werr" in g:
+            add(f"write refused by the implementation only ({at})", mo[:80], g["werr"])
+            return
+        _, nvlr, off, nev, est, blen, vb, eb, vrecs, erecs = mo.split(" ")
+        mloc = [int(nvlr), int(off), int(nev), int(est)]
+        if g["hs"] != hs or g["loc"] != mloc:
+            add(f"header fields that locate the records differ ({at}): [number of VLRs, offset to points, number of EVLRs, start of first EVLR]", mloc, g["loc"])
+            return
+        vb, eb = common.unhex(vb), common.unhex(eb)
+        data = g["file"]
+        if data[hs:hs + len(vb)] != vb:
+            add(f"VLR bytes are not the model's, right after the header ({at})", hx(vb)[:200], hx(data[hs:hs + len(vb)])[:200])
+            return
+        if "rerr" in g:
+            add(f"written file cannot be read ({at})", mo[:80], g["rerr"])
+            return
+        if len(data) != hs + int(blen) or (mloc[2] and data[mloc[3]:] != eb):
+            add(f"EVLR bytes are not the model's at start_of_first_evlr ({at})", f"{hs + int(blen)} bytes, evlrs {hx(eb)[:160]}", f"{len(data)} bytes, {hx(data[mloc[3]:])[:160] if mloc[2] else ''}")
+            return
+        if g["hdr"] != (mloc[1], mloc[2], mloc[3]):
+            add(f"header object read differs from the header bytes ({at})", mloc, g["hdr"])
+        for where, items, mrecs, snaps in (("vlrs", v, vrecs, g["vl"]), ("evlrs", e, erecs, g["el"])):
+            irecs = "none" if snaps is None else ("|".join(snap_tok(x) for x in snaps) if snaps else "-")
+            if irecs != mrecs:
+                ml, il = mrecs.split("|"), irecs.split("|")
+                j = next((i for i in range(min(len(ml), len(il))) if ml[i] != il[i]), min(len(ml), len(il)))
+                tag = items[j]["rec"][4] if items and j < len(items) else "count"
+                add(f"{where}: record read back differs ({tag}) ({at})", ml[j][:300] if j < len(ml) else "<none>", il[j][:300] if j < len(il) else "<none>")
+                return
+
+
 def correspond(ctx):
     ctx.extra["rule"] = (
         "record lists of 0..20 records (known classes 60%: well-formed / normalisable / malformed payloads of classification lookup, "
-        "extra bytes, waveform descriptor, GeoKeyDirectory, GeoDoubleParams, GeoAsciiParams, both WKT records, LasZip; bursts of the "
-        "same class; unknown records with exact, near-miss and random user ids of every length 0..16 incl. punctuation, descriptions "
-        "of every length 0..32, record ids around the official ones, payloads empty/1/65535/65536 bytes) written and read through "
-        "VLRList (VLR and EVLR form) and attached to real 1.2/1.3/1.4 files written by LasData.write (stream and disk) or "
-        "LasWriter.write_evlrs and read by laspy.read / laspy.open, first and second generation, all in one process; plus the dispatch "
-        "of (user id, record id) pairs and serialisation of user-built lookups. non-trivial = two or more records, or a known-class "
-        "record, or a full-width id/description, or a payload at the length limit; distinct by (placement, records)")
+        "extra bytes, waveform descriptor (record ids over all of 100..355), GeoKeyDirectory, GeoDoubleParams, GeoAsciiParams, both "
+        "WKT records, LasZip; bursts of the same class; near-miss records = a parsable known-class payload under a user id that "
+        "differs from the official one by blanks / case / one character, or under a neighbouring record id; unknown records "
+        "with exact, near-miss and random user ids of every length 0..16 incl. punctuation, descriptions of every length 0..32, "
+        "record ids around the official ones, payloads empty/1/65535/65536 bytes) written and read through VLRList (VLR and "
+        "EVLR form) and attached to real 1.2/1.3/1.4 files (30% with extra dimensions whose extra-bytes record, with arbitrary "
+        "descriptor bytes, sits anywhere in the VLR list) written by LasData.write (stream and disk) or LasWriter "
+        "(write_evlrs called or not) and read by laspy.read / laspy.open, then carried through 1..3 further generations: the "
+        "lists that were read are edited (remove / insert / clear / replace / reverse / move, incl. removing every EVLR) and "
+        "written through the header that was read; all in one process; plus the dispatch of (user id, record id) pairs and "
+        "serialisation of user-built lookups. non-trivial = two or more records, or a known-class record, or a full-width "
+        "id/description, or a payload at the length limit, or a history with edits; distinct by (placement, records, history)")
     dis = []
     rs = runs(ctx)
     cmds, slots = [], []
     for idx, (case, res) in enumerate(rs):
         if case["mode"] == "list":
             cmds.append(f"rt {'T' if case['ext'] else 'F'} {recs_tok(case['recs'])}")
-            slots.append((idx, "l"))
-        else:
-            cmds.append(f"rt F {recs_tok(case['recs'])}")
-            slots.append((idx, "v"))
-            if case["erecs"] is not None:
-                cmds.append(f"rt T {recs_tok(case['erecs'])}")
-                slots.append((idx, "e"))
-    outs = common.run_model(cmds, name="c08")
-    by = {}
-    for (idx, what), mo in zip(slots, outs):
-        by.setdefault(idx, {})[what] = mo
+            slots.append(idx)
+    outs = dict(zip(slots, common.run_model(cmds, name="c08")))
     for idx, (case, res) in enumerate(rs):
         ctx.traces += 1
         allrecs = list(case["recs"]) + list(case.get("erecs") or [])
-        ctx.case((case["mode"], case.get("ext"), case.get("version"), case.get("via"), [(u, r, d, len(p), hash(p), t) for u, r, d, p, t in allrecs]),
-                 nontrivial=nontrivial(allrecs),
+        edits = [ed for st in steps_of(case) for ed in st["edits"]] if case["mode"] == "file" else []
+        ctx.case((case["mode"], case.get("ext"), case.get("version"), case.get("via"), [(u, r, d, len(p), hash(p), t) for u, r, d, p, t in allrecs],
+                  repr([(st["via"], [(ed[0], ed[1], len(ed)) for ed in st["edits"]]) for st in steps_of(case)]) if case["mode"] == "file" else None),
+                 nontrivial=nontrivial(allrecs) or bool(edits),
                  sample={"mode": case["mode"], "records": [[u.decode(), r, d.decode(), len(p), t] for u, r, d, p, t in allrecs[:4]],
-                         "model": by[idx].get("l", by[idx].get("v"))[:100]})
+                         "history": [[st["via"]] + [ed[0] + ":" + ed[1] for ed in st["edits"]] for st in steps_of(case)] if case["mode"] == "file" else None})
         ctx.count(f"{case['mode']}:{'evlr' if case.get('ext') else 'vlr'}" if case["mode"] == "list" else f"file:{case['version']}:{case['via']}")
         for rec in allrecs:
             ctx.count("record:" + rec[4])
         ctx.count(f"list length {len(allrecs) if len(allrecs) < 5 else '5+'}")
+        if case["mode"] == "file":
+            ctx.count(f"file generations {1 + len(steps_of(case))}")
+            for ed in edits:
+                ctx.count(f"edit:{ed[0]}:{ed[1]}")
+            for st in steps_of(case):
+                ctx.count("rewrite via " + st["via"])
+            if any(r[4].startswith("extra/") for r in case["recs"]):
+                ctx.count("file with extra dimensions")
         if "crash" in res:
-            dis.append({"kind": "implementation crashed while reading what it wrote", "input": case_json(case), "model": by[idx], "impl": res["crash"] + " " + res.get("tb", "")})
+            dis.append({"kind": "implementation crashed while reading what it wrote", "input": case_json(case), "model": outs.get(idx, ""), "impl": res["crash"] + " " + res.get("tb", "")})
             continue
         if case["mode"] == "list":
-            compare_list("list", case["recs"], case["ext"], by[idx]["l"], res.get("werr"), res.get("gen1"), res.get("w2err"), res.get("gen2"),
+            compare_list("list", case["recs"], case["ext"], outs[idx], res.get("werr"), res.get("gen1"), res.get("w2err"), res.get("gen2"),
                          res.get("bytes"), res.get("bytes2"), case, dis)
-            continue
-        mv, me = by[idx]["v"], by[idx].get("e")
-        m_werr = mv.split()[1] if mv.startswith("err ") else (me.split()[1] if me and me.startswith("err ") else None)
-        if m_werr or res.get("werr"):
-            if m_werr != res.get("werr"):
-                dis.append({"kind": "file: write refused on one side only", "input": case_json(case), "model": str(m_werr), "impl": str(res.get("werr"))})
-            continue
-        m_w2 = [m.split(" ")[3] for m in (mv, me) if m is not None]
-        m_w2err = next((x.split(":")[1] for x in m_w2 if x.startswith("w2err:")), None)
-        if m_w2err:
-            # the second write is refused (a normalised payload passed the VLR limit): both sides must refuse; first generation still compared
-            if res.get("w2err") != m_w2err:
-                dis.append({"kind": "file: second write refused on one side only", "input": case_json(case), "model": m_w2err, "impl": str(res.get("w2err"))})
-            for where, recs, mo, g1 in (("file vlrs", case["recs"], mv, res["gen1"]), ("file evlrs", case["erecs"], me, res["egen1"])):
-                if mo is not None:
-                    irecs = "|".join(snap_tok(s) for s in g1) if g1 else "-"
-                    if irecs != mo.split(" ")[2]:
-                        dis.append({"kind": f"{where}: record read back differs", "input": case_json(case), "model": mo.split(' ')[2][:300], "impl": irecs[:300]})
-            continue
-        if res.get("w2err"):
-            dis.append({"kind": "file: second write refused by the implementation only", "input": case_json(case), "model": "ok", "impl": res["w2err"]})
-            continue
-        compare_list("file vlrs", case["recs"], False, mv, None, res["gen1"], None, res["gen2"], None, None, case, dis)
-        if me is not None:
-            if res["egen1"] is None:
-                dis.append({"kind": "file evlrs: not read back", "input": case_json(case), "model": me[:100], "impl": "evlrs is None"})
-            else:
-                compare_list("file evlrs", case["erecs"], True, me, None, res["egen1"], None, res["egen2"], None, None, case, dis)
-        # where the bytes are in the file: VLRs right after the header, EVLRs at the end, located by the header
-        minor, off, nev, start = res["hdr"]
-        hsize = {1: 227, 2: 227, 3: 235, 4: 375}[minor]
-        vb = common.unhex(mv.split(" ")[1])
-        if res["file"][hsize:hsize + len(vb)] != vb or off != hsize + len(vb):
-            dis.append({"kind": "file: VLR bytes are not the model's, right after the header", "input": case_json(case), "model": hx(vb)[:200], "impl": hx(res["file"][hsize:hsize + len(vb)])[:200]})
-        if me is not None and case["erecs"]:
-            eb = common.unhex(me.split(" ")[1])
-            if not res["file"].endswith(eb) or start != len(res["file"]) - len(eb) or nev != len(case["erecs"]):
-                dis.append({"kind": "file: EVLR bytes are not the model's at start_of_first_evlr", "input": case_json(case), "model": hx(eb)[:200], "impl": f"start={start} n={nev} len={len(res['file'])}"})
+        else:
+            correspond_file(case, res, dis)
     dis += correspond_dispatch(ctx)
     dis += correspond_ser_lookup(ctx)
     return dis
@@ -640,7 +935,9 @@ def correspond_dispatch(ctx):
     import laspy
     from laspy.vlrs.known import vlr_factory
     rng = ctx.rng
-    uids = [U_SPEC, U_PROJ, U_LASZIP, b"LASF_Spec ", b"lasf_spec", b"LASF_Spe", b"LASF_Projectio", b"", b"laszip encode", b"X"]
+    uids = [U_SPEC, U_PROJ, U_LASZIP, b"LASF_Spec ", b"lasf_spec", b"LASF_Spe", b"LASF_Projectio", b"", b"laszip encode", b"X",
+            b" LASF_Spec", b"LASF_Spec       ", b"LASF_Projection ", b" LASF_Projection", b"laszip encoded ", b" laszip encoded",
+            b"LASF_SPEC", b"Lasf_Projection", b"LASF Spec", b"laszip_encoded"]
     if ctx.thorough():
         rids = list(range(65536))
     else:
@@ -702,7 +999,7 @@ def dict_items(ents):
 # ---------------------------------------------------------------------------------
 # the property on the implementation (no model)
 # ---------------------------------------------------------------------------------
-def check_list(where, recs, limit, werr, gen1, w2err, gen2, partial=None):
+def check_list(where, recs, limit, werr, gen1, w2err, gen2, partial=None, final=True):
     """-> list of (kind, observed); limit = 65535 for the VLR form, None for EVLRs"""
     out = []
     over = [i for i, r in enumerate(recs) if limit is not None and len(r[3]) > limit]
@@ -734,7 +1031,7 @@ def check_list(where, recs, limit, werr, gen1, w2err, gen2, partial=None):
             if kind in ("wf", "norm"):
                 out.append((f"{where}: {cls} payload laspy understands was not parsed", f"{pre}: {hx(p)[:80]} kept raw"))
         else:
-            if tag == "unknown":
+            if tag in RAW_TAGS:
                 out.append((f"{where}: record of no known type was parsed", f"{pre}: became {s['cls']}"))
             if kind == "bad":
                 out.append((f"{where}: malformed {cls} payload not kept raw", f"{pre}: {hx(p)[:80]} became {s['cls']} {s['content'][:60]}"))
@@ -742,7 +1039,7 @@ def check_list(where, recs, limit, werr, gen1, w2err, gen2, partial=None):
                 out.append((f"{where}: parsed {cls} record cannot be serialised", f"{pre}: record_data_bytes() raised {s['ser_err']}"))
             elif kind == "wf" and s["ser"] != p:
                 out.append((f"{where}: well-formed {cls} payload not byte identical", f"{pre}: {hx(p)[:80]} -> {hx(s['ser'])[:80]} (first difference at {first_diff(p, s['ser'])})"))
-    if out:
+    if out or not final:
         return out
     grew = [s for s in gen1 if s["cls"] != "VLR" and limit is not None and s["ser"] is not None and len(s["ser"]) > limit]
     if w2err is not None:
@@ -776,14 +1073,50 @@ def oracle(case, res):
     if case["mode"] == "list":
         return check_list("evlr list" if case["ext"] else "vlr list", case["recs"], None if case["ext"] else 65535,
                           res.get("werr"), res.get("gen1"), res.get("w2err"), res.get("gen2"), res.get("partial"))
-    over = any(len(r[3]) > 65535 for r in case["recs"])
-    if res.get("werr") is not None:
-        if over and res["werr"] == "EValue":
-            return []
-        return [("file: well-formed record lists refused", f"write raised {res['werr']}")]
-    out = check_list("file vlrs", case["recs"], 65535, None, res["gen1"], res.get("w2err"), res.get("gen2"))
-    if case["erecs"] is not None and not over:
-        out += check_list("file evlrs", case["erecs"], None, None, res["egen1"], res.get("w2err"), res.get("egen2"))
+    return oracle_file(case, res)
+
+
+def oracle_file(case, res):
+    """every generation of the file holds the lists that were attached to it, in order; records that went through the
+    reader come back as they were handed out"""
+    out = []
+    prev = {}            # sid -> what the reader handed out in the previous generation
+    for gi, ((v, e, via, handed), g) in enumerate(zip(history(case), res["gens"])):
+        at = f"generation {gi} ({via})"
+        over = [x for x in v if not x["k"] and len(x["rec"][3]) > 65535]
+        grew = [x for x in v if x["k"] and prev.get(x["sid"], {}).get("ser") is not None and len(prev[x["sid"]]["ser"]) > 65535]
+        if "werr" in g:
+            if (over or grew) and g["werr"] == "EValue":
+                return out
+            kind = "file: well-formed record lists refused" if gi == 0 else "file: what was read cannot be written again"
+            return out + [(kind, f"{at}: write raised {g['werr']}")]
+        if over:
+            return out + [("file vlrs: over-long VLR payload not refused", f"{at}: payload of {len(over[0]['rec'][3])} bytes written")]
+        if grew:
+            return out + [("file vlrs: over-long normalised payload not refused", f"{at}: {len(prev[grew[0]['sid']]['ser'])} bytes")]
+        if "rerr" in g:
+            return out + [("file: what was written cannot be read back", f"{at}: {g['rerr']}; header announces {g['loc'][2]} EVLRs at {g['loc'][3]}, "
+                           f"{0 if not e or not handed else len(e)} were written, file of {len(g['file'])} bytes")]
+        found = check_list("file vlrs", [x["rec"] for x in v], 65535, None, g["vl"], None, None, final=False)
+        if e is not None:
+            found += check_list("file evlrs", [x["rec"] for x in e], None, None, g["el"], None, None, final=False)
+            if not e and g["loc"][2] != 0:
+                found.append(("file evlrs: header announces records that were not written", f"{g['loc'][2]} EVLRs at offset {g['loc'][3]}, none attached"))
+        cur = {}
+        for items, snaps in ((v, g["vl"]), (e or [], g["el"] or [])):
+            if len(items) == len(snaps):
+                for x, sn in zip(items, snaps):
+                    cur[x["sid"]] = sn
+                    if x["k"] and x["sid"] in prev and prev[x["sid"]] != sn:
+                        a, cls = prev[x["sid"]], x["rec"][4].split("/")[0]
+                        diff = [k for k in a if a.get(k) != sn.get(k)]
+                        found.append((f"file: parsed {cls} content not stable across a second write/read",
+                                      f"{x['rec'][4]}: fields {diff} differ: {str({k: a.get(k) for k in diff})[:120]} vs {str({k: sn.get(k) for k in diff})[:120]}"))
+        if found:
+            return out + [(k, f"{at}: {w}") for k, w in found]
+        prev = cur
+    if res.get("skipped"):
+        out.append(("file: parsed records serialise to far more bytes than were read", res["skipped"]))
     return out
 
 
@@ -823,7 +1156,13 @@ def search(ctx, seeds):
     for case, res in runs(ctx):
         for kind, why in oracle(case, res):
             if kind not in seen:
-                add(kind, minimise(case, kind), why)
+                small = minimise(case, kind)
+                if small is not case:
+                    try:    # what is observed on the shrunk input (the one that is reported)
+                        why = next((w for k, w in oracle(small, run_case(small)) if k == kind), why)
+                    except Exception:  # noqa
+                        small = case
+                add(kind, small, why)
     if _UTF8_RUNS is None:
         _UTF8_RUNS = []
         for case in utf8_cases(ctx.rng):
@@ -845,9 +1184,9 @@ def run_case(case):
 
 
 def minimise(case, kind):
-    """shrink the record lists while the same kind of failure is observed (at most 25 re-runs)"""
+    """shrink the record lists and the history while the same kind of failure is observed (at most 40 re-runs)"""
     cur = case
-    budget = [25]
+    budget = [40]
 
     def still(cand):
         if budget[0] <= 0:
@@ -868,6 +1207,24 @@ def minimise(case, kind):
                 cur = cand
             else:
                 i += 1
+    if "steps" in cur:
+        # shorter history: drop trailing generations, then single edits
+        while len(cur["steps"]) > 0:
+            cand = dict(cur)
+            cand["steps"] = cur["steps"][:-1]
+            if still(cand):
+                cur = cand
+            else:
+                break
+        for si in range(len(cur["steps"])):
+            ei = 0
+            while ei < len(cur["steps"][si]["edits"]):
+                cand = dict(cur)
+                cand["steps"] = [dict(st, edits=[ed for j, ed in enumerate(st["edits"]) if (i, j) != (si, ei)]) for i, st in enumerate(cur["steps"])]
+                if still(cand):
+                    cur = cand
+                else:
+                    ei += 1
     if cur.get("erecs") and kind.startswith(("file vlrs", "vlr list")):
         cand = dict(cur)
         cand["erecs"] = []
@@ -877,13 +1234,7 @@ def minimise(case, kind):
 
 
 def full_json(case):
-    def rj(recs):
-        return None if recs is None else [[hx(u), r, hx(d), hx(p), t] for u, r, d, p, t in recs]
-    out = {k: v for k, v in case.items() if k not in ("recs", "erecs")}
-    out["recs"] = rj(case["recs"])
-    if "erecs" in case:
-        out["erecs"] = rj(case["erecs"])
-    return out
+    return map_recs(case, lambda recs: [[hx(u), r, hx(d), hx(p), t] for u, r, d, p, t in recs])
 
 
 def replay(ctx, data):
@@ -893,12 +1244,7 @@ def replay(ctx, data):
         print("nothing to replay")
         return 0
 
-    def unj(recs):
-        return None if recs is None else [(common.unhex(u), r, common.unhex(d), common.unhex(p), t) for u, r, d, p, t in recs]
-    case = dict(inp)
-    case["recs"] = unj(inp["recs"])
-    if "erecs" in inp:
-        case["erecs"] = unj(inp["erecs"])
+    case = map_recs(inp, lambda recs: [(common.unhex(u), r, common.unhex(d), common.unhex(p), t) for u, r, d, p, t in recs])
     found = oracle(case, run_case(case))
     want = fi.get("kind", "").replace("non-ASCII text: ", "")
     hit = [w for k, w in found if k == want] or [w for _, w in found]
